@@ -278,6 +278,8 @@ func mainLocks(args []string) {
 		}
 		b.WriteString("  (\"" + n + "\", [" + strings.Join(pl, ", ") + "])" + sep + "\n")
 	}
-	b.WriteString("]\n\nend Csvq.Gen.CursorLocks\n")
+	b.WriteString("]\n")
+	b.WriteString(traceSection(file))
+	b.WriteString("\nend Csvq.Gen.CursorLocks\n")
 	fmt.Print(b.String())
 }
